@@ -162,6 +162,7 @@ def stepLine (s : State) (line : String) : State × String :=
   | ["child", "pendloop"] => (s, if survives .pendTick witnessPendTick then "survived" else "crashed")
   | ["child", "deniedloop"] => (s, if survives .deniedTick witnessDeniedTick then "survived" else "crashed")
   | ["fact", "same", name] => (s, if sameBodyFacts.contains name then "1" else "unknown")
+  | ["fact", "lock", name] => (s, match lockFact name with | some r => r | none => "unknown")
   | ["fact", "recover", name] =>
     (s, match hasRecoverFact name with | some true => "1" | some false => "0" | none => "unknown")
   | _ => (s, "bad-op")
